@@ -9,7 +9,7 @@ Line protocol of the C20 model (one s-expression in, one out).
   STATE = ((x n) ...)          variables not listed are 0
   STR   = atom, percent-encoded as in harness/common/sexp.py
 
-  (vcs COM PRE POST)        -> (ok ACOM (E ...) (STR ...))   annotated command, VCs, printed VCs
+  (vcs COM PRE POST)        -> (ok ACOM (E ...) (STR ...) (wsCom wfCpre wfCpost allVCswfC))   annotated command, VCs, printed VCs, hypotheses of the theorems
   (vcsh COM PRE POST)       -> (E ...)                        conditions of imp.vcg (no `== true` shortcut)
   (wf E)                    -> (wfC wfA tyC tyA)              each T | F
   (ws COM)                  -> T | F                          wsCom
@@ -135,7 +135,8 @@ def handle (line : String) : String :=
     | some c, some p, some q =>
       let a := computeWp c [p] q
       let vcs := getVcs a
-      toString (Sexp.list [.atom "ok", acomTo a, exprsTo vcs, .list (vcs.map fun v => .atom (enc (pp v)))])
+      toString (Sexp.list [.atom "ok", acomTo a, exprsTo vcs, .list (vcs.map fun v => .atom (enc (pp v))),
+        .list [Sexp.ofBool (wsCom c), Sexp.ofBool (wfC p), Sexp.ofBool (wfC q), Sexp.ofBool (vcs.all wfC)]])
     | _, _, _ => "bad-op"
   | some (.list [.atom "vcsh", c, p, q]) =>
     match comOf c, exprOf p, exprOf q with
